@@ -3,10 +3,13 @@ Bounded stand-in (run-time contract check) for property C01:
 "XML save/load is lossless and conforms to odML format 1.1".
 
 Parts
-  run_value_codec     to_csv/from_csv as chained by XMLWriter.save_element / XMLReader.parse_tag
-  run_roundtrip       load(save(doc)) == doc over writer entry points x reader entry points
+  run_value_codec     to_csv/from_csv as chained by XMLWriter.save_element / XMLReader.parse_tag; n-tuple values
+                      through XMLWriter / XMLReader
+  run_roundtrip       load(save(doc)) == doc over writer entry points x input forms (file, bytes, decoded str;
+                      re-encoded with/without BOM and declaration) x reader entry points; file names
   run_vocabulary      written XML uses the odML 1.1 element vocabulary only (stdlib ElementTree)
-  run_foreign_writer  XML produced by an independent serializer loads to the document it describes
+  run_foreign_writer  XML produced by an independent serializer (5 spellings) in every input form loads to the
+                      document it describes
 
 The oracle is written from the property statement: own normalisation / comparison of independent
 snapshots (harness.snap_* read private fields), own 1.1 vocabulary table, own serializer.
@@ -224,6 +227,83 @@ def field_class(kind, field, img, other=None):
     return 'attribute-preserved', '%s.%s:%s' % (kind, field.lstrip('_'), text_feature(raw.get(field)))
 
 
+# ---------------------------------------------------------------------------------------------
+# labelling only: is a text difference the trace of bytes read in the wrong encoding?
+# ---------------------------------------------------------------------------------------------
+def _decode_cp1252(raw):
+    """windows-1252 as decoders with a full table read it (the five unassigned bytes as C1 controls)."""
+    return ''.join(bytes([c]).decode('cp1252') if c not in (0x81, 0x8d, 0x8f, 0x90, 0x9d) else chr(c) for c in raw)
+
+
+TRANSCODINGS = []
+for _w in ('utf-8', 'utf-16-le', 'utf-16-be', 'iso-8859-1', 'cp1252', 'iso-8859-15'):
+    for _r in ('utf-8', 'iso-8859-1', 'cp1252', 'iso-8859-15', 'utf-16-le', 'utf-16-be'):
+        if _w != _r:
+            TRANSCODINGS.append((_w, _r))
+
+
+def _transcode(s, written, read):
+    try:
+        raw = s.encode(written)
+        return _decode_cp1252(raw) if read == 'cp1252' else raw.decode(read)
+    except (UnicodeError, ValueError):
+        return None
+
+
+def _explained(va, vb, written, read):
+    """vb is va with some (at least one) of its non-ASCII characters encoded in `written` and decoded in `read`;
+    the others are unchanged (e.g. because they were written as character references). Texts only."""
+    j, changed = 0, False
+    for i, ch in enumerate(va):
+        t = _transcode(ch, written, read) if ord(ch) > 127 else None
+        opts = [t] if t is not None and t != ch else []
+        # the loaded text is compared after strip(), which also takes C1 controls / no-break spaces at the ends
+        if opts and i == len(va) - 1 and t.rstrip():
+            opts.append(t.rstrip())
+        if opts and i == 0 and t.lstrip():
+            opts.append(t.lstrip())
+        for o in opts:
+            if vb.startswith(o, j) and (o == t or i == 0 or j + len(o) == len(vb)):
+                j += len(o)
+                changed = True
+                break
+        else:
+            if vb.startswith(ch, j):
+                j += 1
+            else:
+                return False
+    return changed and j == len(vb)
+
+
+def _texts(x):
+    if isinstance(x, str):
+        return [x]
+    if isinstance(x, tuple):
+        return [t for v in x for t in _texts(v)]
+    return [None]
+
+
+def transcoding_label(va, vb):
+    """'<enc>-bytes-read-as-<enc>' when the texts of vb are the texts of va with non-ASCII characters encoded in
+    one and decoded in another encoding, else None. Labelling only: gives one defect one class, whatever
+    attribute shows it."""
+    ta, tb = _texts(va), _texts(vb)
+    if va == vb or len(ta) != len(tb) or not any(isinstance(t, str) for t in ta):
+        return None
+    for written, read in TRANSCODINGS:
+        hit = False
+        for x, y in zip(ta, tb):
+            if x == y:
+                continue
+            if not (isinstance(x, str) and isinstance(y, str) and _explained(x, y, written, read)):
+                hit = False
+                break
+            hit = True
+        if hit:
+            return '%s-bytes-read-as-%s' % (written, read)
+    return None
+
+
 def compare(a, b, path='', lab=None):
     """Differences between ORIGINAL image a and LOADED image b: list of dicts clause/feature/object/detail.
     lab: image (same tree shape as a) whose content is used for the feature labels instead of a's."""
@@ -246,6 +326,9 @@ def compare(a, b, path='', lab=None):
     for f in differing:
         va, vb = a['fields'].get(f, '<missing>'), b['fields'].get(f, '<missing>')
         clause, feature = field_class(a['kind'], f, lab, b)
+        trans = transcoding_label(va, vb)
+        if trans:
+            feature = 'text-transcoded:' + trans
         out.append({'clause': clause, 'feature': feature, 'object': here or '/', 'field': f,
                     'detail': 'original %r, loaded %r' % (va, vb)})
     for key in ('props', 'sections'):
@@ -704,6 +787,85 @@ def minimal_failing(vs):
     return vs
 
 
+# n-tuple values: elements over an alphabet without the characters of the tuple syntax itself ('(', ';', ')')
+TUPLE_ALPHABET = ['a', ' ', ',', '"', '[', ']', '\n', '\r', '\t', '<', '&', 'é']
+
+
+def tuple_elements(max_len):
+    """Non-empty stripped strings with |s| <= max_len, plus every letter between two plain ones (|s| = 3), so
+    that white space can sit inside an element."""
+    out = []
+    for n in range(1, max_len + 1):
+        for tup in itertools.product(TUPLE_ALPHABET, repeat=n):
+            s = ''.join(tup)
+            if s == s.strip():
+                out.append(s)
+    out += ['a' + ch + 'b' for ch in TUPLE_ALPHABET if ch != 'a']
+    return out
+
+
+@functools.lru_cache(maxsize=1 << 16)
+def tuple_codec(tuples):
+    """A property holding the given 2-tuples, written by XMLWriter and read back by the strict XMLReader.
+    -> ('not-buildable', _) the public API does not store these elements as given (no such document);
+       ('raised-writer', e) | ('raised-reader', e) | ('ok', loaded values)"""
+    k, built = h.call(lambda: odml.Property(name='t', dtype='2-tuple',
+                                            values=['(%s;%s)' % t for t in tuples]))
+    if k == 'exc' or [list(v) for v in built._values] != [list(t) for t in tuples]:
+        return 'not-buildable', None
+    doc = odml.Document()
+    sec = h.make_sec('s')
+    with h.quiet():
+        doc.append(sec)
+        sec.append(built)
+    k, text = h.call(lambda: str(xp.XMLWriter(doc)))
+    if k == 'exc':
+        return 'raised-writer', text
+    k, loaded = h.call(xp.XMLReader(show_warnings=False).from_string, text)
+    if k == 'exc':
+        return 'raised-reader', loaded
+    _secs, props = h.walk(loaded)
+    if len(props) != 1:
+        return 'ok', None
+    return 'ok', [list(v) if isinstance(v, (list, tuple)) else v for v in props[0]._values]
+
+
+def tuple_fails(tuples):
+    kind, res = tuple_codec(tuples)
+    if kind in ('not-buildable', 'raised-writer'):
+        return False
+    return kind == 'raised-reader' or res != [list(t) for t in tuples]
+
+
+def _tuple_reductions(tuples):
+    if len(tuples) > 1:
+        for i in range(len(tuples) - 1, -1, -1):
+            yield tuples[:i] + tuples[i + 1:]
+    for i, t in enumerate(tuples):
+        for j, s in enumerate(t):
+            cands = [s[:c] + s[c + 1:] for c in range(len(s))] + \
+                    [s[:c] + 'a' + s[c + 1:] for c in range(len(s)) if s[c] != 'a']
+            for r in cands:
+                if r and r == r.strip():
+                    yield tuples[:i] + (t[:j] + (r,) + t[j + 1:],) + tuples[i + 1:]
+
+
+@functools.lru_cache(maxsize=1 << 16)
+def minimal_failing_tuples(tuples):
+    for cand in _tuple_reductions(tuples):
+        if tuple_fails(cand):
+            return minimal_failing_tuples(cand)
+    return tuples
+
+
+def tuple_feature(tuples):
+    marks = set()
+    for i, t in enumerate(tuples):
+        for s in t:
+            marks |= text_marks(s, 'first' if i == 0 else 'later')
+    return '2-tuple:%s/%s' % (count_label(tuples), '+'.join(sorted(marks)) or 'plain')
+
+
 def run_value_codec(tier, seed):
     quick = tier == 'quick'
     len12, len3 = (2, 1) if quick else (3, 2)
@@ -756,9 +918,45 @@ def run_value_codec(tier, seed):
     for _ in range(2000 if quick else 200000):
         n = rnd.choice([3, 3, 4])
         evaluate(tuple(rnd.choice(pool) for _ in range(n)))
+    # n-tuples: one and two 2-tuples through the XML writer and the strict reader
+    not_buildable = [0]
+
+    def evaluate_tuples(tuples):
+        col.case(cls_key=tuple_feature(tuples), sample=repr([list(t) for t in tuples]))
+        kind, res = tuple_codec(tuples)
+        if kind == 'not-buildable':
+            not_buildable[0] += 1
+            return
+        if kind == 'raised-writer':
+            raised[0] += 1
+            return
+        if kind == 'ok' and res == [list(t) for t in tuples]:
+            return
+        mini = minimal_failing_tuples(tuples)
+        mkind, mres = tuple_codec(mini)
+        clause = 'reader-accepts-written-value' if mkind == 'raised-reader' else 'value-list-preserved'
+        agg.add(check='C01.value_codec/' + clause,
+                cls={'clause': clause, 'feature': tuple_feature(mini)},
+                witness={'dtype': '2-tuple', 'values': [list(t) for t in mini],
+                         'first_seen_for': [list(t) for t in tuples]},
+                detail='2-tuple values %r written by XMLWriter are read back as %r; contract requires the same '
+                       'list or the writer to raise' % ([list(t) for t in mini], mres))
+
+    big = tuple_elements(1 if quick else 2)
+    small = tuple_elements(1) if quick else big
+    for e1 in big:
+        for e2 in small:
+            evaluate_tuples(((e1, e2),))
+            if e1 != e2 and (quick or e2 not in big):
+                evaluate_tuples(((e2, e1),))
+    for e1 in big:
+        for e2 in tuple_elements(1):
+            evaluate_tuples(((e1, 'b'), ('c', e2)))
+            evaluate_tuples(((e2, 'b'), ('c', e1)))
     agg.flush()
     res = col.result()
     res['writer_raised'] = raised[0]
+    res['not_buildable'] = not_buildable[0]
     return res
 
 
@@ -830,12 +1028,17 @@ def strip_decl(text):
 
 
 def sniff_decode(data):
-    """Decode the bytes of an XML file the way an XML processor has to: BOM, else declaration, else UTF-8."""
-    for bom, codec in ((codecs.BOM_UTF8, 'utf-8'), (codecs.BOM_UTF16_LE, 'utf-16-le'), (codecs.BOM_UTF16_BE, 'utf-16-be')):
-        if data.startswith(bom):
-            return data[len(bom):].decode(codec)
-    m = re.match(br'\s*<\?xml[^>]*encoding\s*=\s*["\']([A-Za-z0-9._-]+)["\']', data[:200])
-    return data.decode(m.group(1).decode('ascii') if m else 'utf-8')
+    """Decode the bytes of an XML file the way an XML processor has to: BOM, else declaration, else UTF-8.
+    -> str, or None when the bytes are not text in that encoding (then only the file itself is handed on)."""
+    try:
+        for bom, codec in ((codecs.BOM_UTF8, 'utf-8'), (codecs.BOM_UTF16_LE, 'utf-16-le'),
+                           (codecs.BOM_UTF16_BE, 'utf-16-be')):
+            if data.startswith(bom):
+                return data[len(bom):].decode(codec)
+        m = re.match(br'\s*<\?xml[^>]*encoding\s*=\s*["\']([A-Za-z0-9._-]+)["\']', data[:200])
+        return data.decode(m.group(1).decode('ascii') if m else 'utf-8')
+    except (UnicodeError, LookupError):
+        return None
 
 
 class Form(object):
@@ -1007,6 +1210,7 @@ class Cases(object):
         self.path, self.source_dim, self.contract = path, source_dim, contract
         self.found = {}
         self.universe = []
+        self.unreadable = set()
         self.orig_image = image(doc, True)
 
     def note(self, case, check, feature, obj, field, detail):
@@ -1019,10 +1223,12 @@ class Cases(object):
         self.universe.append(case)
         (k, loaded), warns = read_input(reader, data, self.path)
         if k == 'exc':
+            self.unreadable.add(case)
             self.note(case, 'reader-accepts', exc_feature(loaded), '/', None,
                       'reader raised %s: %s' % (type(loaded).__name__, str(loaded)[:200]))
             return
         if not isinstance(loaded, h.BaseDocument):
+            self.unreadable.add(case)
             self.note(case, 'reader-accepts', 'no-document-returned', '/', None, 'reader returned %r' % (loaded,))
             return
         for d in doc_differences(self.doc, loaded, strip=True, orig_image=self.orig_image):
@@ -1033,8 +1239,10 @@ class Cases(object):
 
     def flush(self):
         dims = (self.source_dim, 'input', 'reader')
+        readable = [c for c in self.universe if c not in self.unreadable]
         for (check, feature, obj, field), info in self.found.items():
-            for lab in generalise_cases(info['cases'], self.universe, dims):
+            # a case in which no document came back says nothing about the clauses on its content
+            for lab in generalise_cases(info['cases'], self.universe if check == 'reader-accepts' else readable, dims):
                 cls = {'clause': check, 'feature': feature}
                 cls.update(zip(dims, lab))
                 self.agg.add(check='%s/%s' % (self.part, check), cls=cls,
@@ -1048,11 +1256,16 @@ def native_inputs(produced, path):
     -> list of (input label, data | None (= the file as written)), body text for re-encoding"""
     if isinstance(produced, str):
         body = strip_decl(produced)
-        return [('str:as-returned', produced),
-                ('str:own-decl+returned', XML_DECL + body),
-                ('str:library-header+returned', xp.XMLWriter.header + body),
-                ('bytes:own-decl+returned/utf-8', (XML_DECL + body).encode('utf-8'))], body
+        out = [('str:as-returned', produced),
+               ('str:own-decl+returned', XML_DECL + body),
+               ('bytes:own-decl+returned/utf-8', (XML_DECL + body).encode('utf-8'))]
+        header = getattr(xp.XMLWriter, 'header', None)      # the library's own declaration + stylesheet reference
+        if isinstance(header, str):
+            out.append(('str:library-header+returned', header + body))
+        return out, body
     text = sniff_decode(produced)
+    if text is None:
+        return [('file:as-written', None), ('bytes:file-content', produced)], None
     return [('file:as-written', None), ('bytes:file-content', produced), ('str:file-decoded', text)], \
         strip_decl(text)
 
@@ -1098,7 +1311,11 @@ def run_roundtrip(tier, seed):
                     for rname in readers_for(input_label, styled):
                         cases.path = fpath if data is None else path2
                         cases.evaluate(wname, input_label, data, rname, styled)
+                if body is None:
+                    continue            # nothing to re-encode; the reads of the file itself have reported it
                 full = wants_all_forms(tier, rich, body, n_doc, n_w, len(WRITERS))
+                if not rich and not full and (n_doc + n_w) % 2:
+                    continue            # generated documents: re-encoded forms for every other writer
                 for form in select_forms(full, n_doc * len(WRITERS) + n_w, base=()):   # plain ones: the natives
                     if styled and not form.fits(body):
                         continue        # character references inside the stylesheet element are not ours to write
@@ -1195,7 +1412,7 @@ def run_vocabulary(tier, seed):
         for feature, detail in format_table_problems():
             agg.add(check='C01.xml_vocabulary/format-tables', cls={'clause': 'format-tables', 'feature': feature},
                     witness={'table': feature}, detail=str(detail))
-        for label, doc in documents(tier, seed):
+        for label, doc, _rich in c01_documents(tier, seed):
             sig = doc_signature(doc)
             n_secs, n_props = map(len, h.walk(doc))
             for wname, _produces, styled in WRITERS:
@@ -1372,10 +1589,13 @@ def tree_image(node):
 
 
 def select_variants(rich, k, tier):
+    """All spellings for the fixed documents; for a generated one the plain spelling and one (thorough tier: two)
+    of the others, moving with the document number."""
     names = list(VARIANTS)
-    if rich or tier != 'quick':
+    if rich:
         return names
-    return [names[0], names[1 + k % (len(names) - 1)]]
+    others = names[1:]
+    return [names[0]] + [others[(k + j) % len(others)] for j in range(1 if tier == 'quick' else 2)]
 
 
 def run_foreign_writer(tier, seed):
